@@ -100,6 +100,11 @@ pub fn gen(tier: Tier, r: &mut Rng, emit: &mut dyn FnMut(String)) {
         let ps = g.stream();
         emit_stream(&ps, emit);
     }
+    // deep nesting around multi-line block scalars (content indentation 15…65 columns)
+    for _ in 0..(if tier == Tier::Quick { 150 } else { 4_000 }) {
+        let ps = deep_stream(r);
+        emit_stream(&ps, emit);
+    }
     // CLI leg: multi-document batches (one process per batch) of documents without a presentation
     // feature that has a recorded loader finding (those are exercised by the library leg above)
     if std::env::var("SV_CLI").is_ok() {
